@@ -23,7 +23,7 @@ CLAIMED = {
     'C02': dict(
         category='proof',
         technique='concolic symbolic execution of the real Layout/Grid code on z3 Int (unbounded extent) and bit-vector proxies; SMT queries',
-        text='(a) For every process count p<=8 (thorough 32), every rank and the listed 2-D grids/orderings, Layout.__init__ is run '
+        text='(a) For every process count p<=8 (thorough 24), every rank and the listed 2-D grids/orderings, Layout.__init__ is run '
              'on an unbounded symbolic extent n>=p and z3 proves: blocks tile [0,n) in rank order, lengths differ by at most one and '
              'are >=1, tables agree on all ranks, starts/ends/shape/max_block_shape/fullShape agree with them (a proof for all n per '
              'listed p). (b) bufferSize >= every layout block for bit-vector extents <= N. (c) the real Grid accessors run on '
